@@ -58,38 +58,10 @@ func FuzzAll(f *testing.F) {
 	}
 	sfx := impl.CfgSuffix()
 	f.Fuzz(func(t *testing.T, sel, aux byte, a, b []byte) {
-		if len(a) > 4096 || len(b) > 4096 {
+		op, ok := mkOp(list, sfx, sel, aux, a, b)
+		if !ok {
 			return
 		}
-		fn := list[int(sel)%len(list)]
-		pkg := "s"
-		if aux&1 == 1 {
-			pkg = "b"
-		}
-		var args []string
-		switch fn {
-		case "IndexRune", "ContainsRune":
-			var r int64
-			switch {
-			case len(b) >= 4 && aux&2 != 0:
-				r = int64(int32(uint32(b[0]) | uint32(b[1])<<8 | uint32(b[2])<<16 | uint32(b[3])<<24))
-			case len(b) > 0:
-				rr := []rune(string(b))
-				r = int64(rr[0])
-			}
-			args = []string{impl.Hex(a), strconv.FormatInt(r, 10)}
-		case "IndexByte", "LastIndexByte", "IndexByteASCII":
-			c := aux
-			if len(b) > 0 {
-				c = b[0]
-			}
-			args = []string{impl.Hex(a), strconv.Itoa(int(c))}
-		case "IndexNonASCII", "ContainsNonASCII":
-			args = []string{impl.Hex(a)}
-		default:
-			args = []string{impl.Hex(a), impl.Hex(b)}
-		}
-		op := impl.Op{Fn: fn, Cfg: pkg + sfx, Args: args}
 		want := ref.Eval(op)
 		if want == "" {
 			return
@@ -99,4 +71,81 @@ func FuzzAll(f *testing.F) {
 			t.Fatalf("WITNESS %s\nreal=%s reference=%s", op.Line(), got, want)
 		}
 	})
+}
+
+// mkOp turns one fuzz input into an op of the line protocol.
+func mkOp(list []string, sfx string, sel, aux byte, a, b []byte) (impl.Op, bool) {
+	if len(a) > 4096 || len(b) > 4096 {
+		return impl.Op{}, false
+	}
+	fn := list[int(sel)%len(list)]
+	pkg := "s"
+	if aux&1 == 1 {
+		pkg = "b"
+	}
+	var args []string
+	switch fn {
+	case "IndexRune", "ContainsRune":
+		var r int64
+		switch {
+		case len(b) >= 4 && aux&2 != 0:
+			r = int64(int32(uint32(b[0]) | uint32(b[1])<<8 | uint32(b[2])<<16 | uint32(b[3])<<24))
+		case len(b) > 0:
+			rr := []rune(string(b))
+			r = int64(rr[0])
+		}
+		args = []string{impl.Hex(a), strconv.FormatInt(r, 10)}
+	case "IndexByte", "LastIndexByte", "IndexByteASCII":
+		c := aux
+		if len(b) > 0 {
+			c = b[0]
+		}
+		args = []string{impl.Hex(a), strconv.Itoa(int(c))}
+	case "IndexNonASCII", "ContainsNonASCII":
+		args = []string{impl.Hex(a)}
+	default:
+		args = []string{impl.Hex(a), impl.Hex(b)}
+	}
+	return impl.Op{Fn: fn, Cfg: pkg + sfx, Args: args}, true
+}
+
+// TestPrintOp prints the op line of a crasher file written by the fuzzing engine (FUZZ_INPUT=<path>): used
+// when the engine reports a hang or a crash of the worker instead of a WITNESS line.
+func TestPrintOp(t *testing.T) {
+	path := os.Getenv("FUZZ_INPUT")
+	if path == "" {
+		t.Skip("no FUZZ_INPUT")
+	}
+	data, err := os.ReadFile(path)
+	if err != nil {
+		t.Fatal(err)
+	}
+	lines := strings.Split(strings.TrimSpace(string(data)), "\n")
+	if len(lines) < 5 {
+		t.Fatalf("unexpected corpus file: %q", data)
+	}
+	getByte := func(s string) byte {
+		s = strings.TrimSuffix(strings.TrimPrefix(strings.TrimSpace(s), "byte("), ")")
+		if strings.HasPrefix(s, "'") {
+			r, _, _, err := strconv.UnquoteChar(s[1:len(s)-1], '\'')
+			if err != nil {
+				t.Fatal(err)
+			}
+			return byte(r)
+		}
+		n, _ := strconv.ParseUint(s, 0, 8)
+		return byte(n)
+	}
+	getBytes := func(s string) []byte {
+		s = strings.TrimSuffix(strings.TrimPrefix(strings.TrimSpace(s), "[]byte("), ")")
+		u, err := strconv.Unquote(s)
+		if err != nil {
+			t.Fatal(err)
+		}
+		return []byte(u)
+	}
+	op, ok := mkOp(fns(), impl.CfgSuffix(), getByte(lines[1]), getByte(lines[2]), getBytes(lines[3]), getBytes(lines[4]))
+	if ok {
+		os.Stdout.WriteString("WITNESS " + op.Line() + "\n")
+	}
 }
